@@ -112,7 +112,8 @@ for _n in ("ForceFlush", "Shutdown"):
     _ptc.tu = TU_TC
     proofs.append(_ptc)
 trusted = ("SpanProcessor / LogRecordProcessor::ForceFlush (virtual) as ghost answers",)
-assumptions = ("ONLY the return value and the fan-out of ForceFlush of the two multi processors are decided (one call, sequential); liveness, completeness under interleavings, finality of Shutdown, "
+assumptions = ("ONLY single sequential calls are decided: the return value and the fan-out of ForceFlush / Shutdown of the two multi processors, the provider-level forwarders (TracerContext, LoggerContext), "
+               "ForceFlush and the first-Shutdown latch of the simple processors; liveness, completeness under interleavings, finality of Shutdown across threads, "
                "the batch processors' own ForceFlush/Shutdown protocol and the periodic reader are NOT covered",)
 not_covered = ("BatchSpanProcessor / BatchLogRecordProcessor ForceFlush and Shutdown (condition variables, worker thread)", "PeriodicExportingMetricReader", "termination under every interleaving", "Shutdown exactly-once across threads")
 refuters = {}
